@@ -1,12 +1,409 @@
 /-
-  Props.C11 — the theorems that decide property C11 (see DESIGN.md §7).
+  Props.C11 — evaluation errors propagate; never swallowed into null or a
+  partial result (DESIGN.md §7, C11).
+
+  `Evaluated ft root d sub d'` says: the specification requires, when `root`
+  is evaluated against `d`, that `sub` be evaluated against `d'`.  The theorem:
+  if that evaluation does not produce a value, neither does the whole.
 -/
 import Props.Tables
+import Jmes.Interp
 namespace Jmes.Props
-open Jmes
+open Jmes Jmes.Interp
 
 theorem C11_generated_table_ok : TableOK Generated.table = true := generated_table_ok
 theorem C11_generated_sigs_ok : SigsOK Generated.functionTable Spec.functionTable = true := generated_sigs_ok
 theorem C11_generated_lex_ok : LexTablesOK Model.lexTables Spec.lexTables = true := generated_lex_ok
+
+variable {N : Type} [NumOps N]
+
+/-- Which sub-expressions must be evaluated, and against what. -/
+inductive Evaluated (ft : List FnEntry) : Node N → Val N → Node N → Val N → Prop where
+  | here (n : Node N) (d : Val N) : Evaluated ft n d n d
+  -- comparators: both operands
+  | cmpL {op l r d s d'} : Evaluated ft l d s d' → Evaluated ft (.cmp op l r) d s d'
+  | cmpR {op l r d s d'} : Evaluated ft r d s d' → Evaluated ft (.cmp op l r) d s d'
+  -- || and &&: the left operand always, the right one only when needed
+  | orL {l r d s d'} : Evaluated ft l d s d' → Evaluated ft (.or l r) d s d'
+  | orR {l r d s d' m} : eval ft l d = .ok m → m.isFalse = true → Evaluated ft r d s d' → Evaluated ft (.or l r) d s d'
+  | andL {l r d s d'} : Evaluated ft l d s d' → Evaluated ft (.and l r) d s d'
+  | andR {l r d s d' m} : eval ft l d = .ok m → m.isFalse = false → Evaluated ft r d s d' → Evaluated ft (.and l r) d s d'
+  | not {e d s d'} : Evaluated ft e d s d' → Evaluated ft (.not e) d s d'
+  -- sequencing: the left side against d, the right side against its value
+  | pipeL {l r d s d'} : Evaluated ft l d s d' → Evaluated ft (.pipe l r) d s d'
+  | pipeR {l r d s d' v} : eval ft l d = .ok v → Evaluated ft r v s d' → Evaluated ft (.pipe l r) d s d'
+  | subL {l r d s d'} : Evaluated ft l d s d' → Evaluated ft (.sub l r) d s d'
+  | subR {l r d s d' v} : eval ft l d = .ok v → Evaluated ft r v s d' → Evaluated ft (.sub l r) d s d'
+  | idxL {l r d s d'} : Evaluated ft l d s d' → Evaluated ft (.indexExpr l r) d s d'
+  | idxR {l r d s d' v} : eval ft l d = .ok v → Evaluated ft r v s d' → Evaluated ft (.indexExpr l r) d s d'
+  -- projections: the left side; the right side once per element of a matching left value
+  | projL {l r d s d'} : Evaluated ft l d s d' → Evaluated ft (.proj l r) d s d'
+  | projR {l r d s d' xs x} : eval ft l d = .ok (.arr xs) → x ∈ xs → Evaluated ft r x s d' → Evaluated ft (.proj l r) d s d'
+  | vprojL {l r d s d'} : Evaluated ft l d s d' → Evaluated ft (.valueProj l r) d s d'
+  | vprojR {l r d s d' kvs kv} : eval ft l d = .ok (.obj kvs) → kv ∈ kvs → Evaluated ft r kv.2 s d' →
+      Evaluated ft (.valueProj l r) d s d'
+  | flatten {e d s d'} : Evaluated ft e d s d' → Evaluated ft (.flatten e) d s d'
+  | filterL {l r c d s d'} : Evaluated ft l d s d' → Evaluated ft (.filterProj l r c) d s d'
+  | filterC {l r c d s d' xs x} : eval ft l d = .ok (.arr xs) → x ∈ xs → Evaluated ft c x s d' →
+      Evaluated ft (.filterProj l r c) d s d'
+  | filterR {l r c d s d' xs x cv} : eval ft l d = .ok (.arr xs) → x ∈ xs → eval ft c x = .ok cv → cv.isFalse = false →
+      Evaluated ft r x s d' → Evaluated ft (.filterProj l r c) d s d'
+  -- multi-select: every member, unless the current node is null
+  | listM {xs d s d' x} : d ≠ .null → x ∈ xs → Evaluated ft x d s d' → Evaluated ft (.msList xs) d s d'
+  | hashM {kvs d s d' kv} : d ≠ .null → kv ∈ kvs → Evaluated ft kv.2 d s d' → Evaluated ft (.msHash kvs) d s d'
+  -- every (non-reference) function argument
+  | arg {name args d s d' x} : (false, x) ∈ args → Evaluated ft x d s d' → Evaluated ft (.call name args) d s d'
+
+/-- "does not produce a value" -/
+def Fails {α} (r : Res α) : Prop := ∀ v, r ≠ .ok v
+
+theorem fails_of_err {α} (e : Err) : Fails (.err e : Res α) := fun _ h => by cases h
+
+omit [NumOps N] in
+theorem projectLoop_fails (f : Val N → Res (Val N)) (xs : List (Val N)) (x : Val N) (hx : x ∈ xs) (hf : Fails (f x)) :
+    Fails (projectLoop f xs) := by
+  induction xs with
+  | nil => cases hx
+  | cons y ys ih =>
+    intro zs
+    rcases List.mem_cons.mp hx with rfl | hmem
+    · simp only [projectLoop]
+      cases hfx : f x with
+      | ok v => exact absurd hfx (hf v)
+      | err e => simp
+      | panic p => simp
+    · simp only [projectLoop]
+      cases f y with
+      | ok v =>
+        simp only []
+        cases hp : projectLoop f ys with
+        | ok ws => exact absurd hp (ih hmem ws)
+        | err e => simp
+        | panic p => simp
+      | err e => simp
+      | panic p => simp
+
+omit [NumOps N] in
+theorem filterLoop_fails_cond (c r : Val N → Res (Val N)) (xs : List (Val N)) (x : Val N) (hx : x ∈ xs) (hf : Fails (c x)) :
+    Fails (filterLoop c r xs) := by
+  induction xs with
+  | nil => cases hx
+  | cons y ys ih =>
+    intro zs
+    simp only [filterLoop]
+    rcases List.mem_cons.mp hx with rfl | hmem
+    · cases hfx : c x with
+      | ok v => exact absurd hfx (hf v)
+      | err e => simp
+      | panic p => simp
+    · cases c y with
+      | ok cv =>
+        simp only []
+        split
+        · cases r y with
+          | ok v =>
+            simp only []
+            cases hp : filterLoop c r ys with
+            | ok ws => exact absurd hp (ih hmem ws)
+            | err e => simp
+            | panic p => simp
+          | err e => simp
+          | panic p => simp
+        · exact ih hmem zs
+      | err e => simp
+      | panic p => simp
+
+omit [NumOps N] in
+theorem filterLoop_fails_rhs (c r : Val N → Res (Val N)) (xs : List (Val N)) (x cv : Val N) (hx : x ∈ xs)
+    (hc : c x = .ok cv) (hcv : cv.isFalse = false) (hf : Fails (r x)) : Fails (filterLoop c r xs) := by
+  induction xs with
+  | nil => cases hx
+  | cons y ys ih =>
+    intro zs
+    simp only [filterLoop]
+    rcases List.mem_cons.mp hx with rfl | hmem
+    · simp only [hc, hcv, Bool.not_false, if_true]
+      cases hfx : r x with
+      | ok v => exact absurd hfx (hf v)
+      | err e => simp
+      | panic p => simp
+    · cases c y with
+      | ok cv' =>
+        simp only []
+        split
+        · cases r y with
+          | ok v =>
+            simp only []
+            cases hp : filterLoop c r ys with
+            | ok ws => exact absurd hp (ih hmem ws)
+            | err e => simp
+            | panic p => simp
+          | err e => simp
+          | panic p => simp
+        · exact ih hmem zs
+      | err e => simp
+      | panic p => simp
+
+theorem evalList_fails (ft : List FnEntry) (xs : List (Node N)) (d : Val N) (x : Node N) (hx : x ∈ xs)
+    (hf : Fails (eval ft x d)) : Fails (evalList ft xs d) := by
+  induction xs with
+  | nil => cases hx
+  | cons y ys ih =>
+    intro zs
+    simp only [evalList]
+    rcases List.mem_cons.mp hx with rfl | hmem
+    · cases hfx : eval ft x d with
+      | ok v => exact absurd hfx (hf v)
+      | err e => simp
+      | panic p => simp
+    · cases eval ft y d with
+      | ok v =>
+        simp only []
+        cases hp : evalList ft ys d with
+        | ok ws => exact absurd hp (ih hmem ws)
+        | err e => simp
+        | panic p => simp
+      | err e => simp
+      | panic p => simp
+
+theorem evalKVs_fails (ft : List FnEntry) (xs : List (Bytes × Node N)) (d : Val N) (kv : Bytes × Node N) (hx : kv ∈ xs)
+    (hf : Fails (eval ft kv.2 d)) : Fails (evalKVs ft xs d) := by
+  induction xs with
+  | nil => cases hx
+  | cons y ys ih =>
+    intro zs
+    obtain ⟨yk, yv⟩ := y
+    simp only [evalKVs]
+    rcases List.mem_cons.mp hx with rfl | hmem
+    · cases hfx : eval ft yv d with
+      | ok v => exact absurd hfx (hf v)
+      | err e => simp
+      | panic p => simp
+    · cases eval ft yv d with
+      | ok v =>
+        simp only []
+        cases hp : evalKVs ft ys d with
+        | ok ws => exact absurd hp (ih hmem ws)
+        | err e => simp
+        | panic p => simp
+      | err e => simp
+      | panic p => simp
+
+theorem evalArgs_fails (ft : List FnEntry) (xs : List (Bool × Node N)) (d : Val N) (x : Node N) (hx : (false, x) ∈ xs)
+    (hf : Fails (eval ft x d)) : Fails (evalArgs ft xs d) := by
+  induction xs with
+  | nil => cases hx
+  | cons y ys ih =>
+    intro zs
+    obtain ⟨yb, yv⟩ := y
+    rcases List.mem_cons.mp hx with heq | hmem
+    · cases heq
+      simp only [evalArgs]
+      cases hfx : eval ft x d with
+      | ok v => exact absurd hfx (hf v)
+      | err e => simp
+      | panic p => simp
+    · cases yb
+      · simp only [evalArgs]
+        cases eval ft yv d with
+        | ok v =>
+          simp only []
+          cases hp : evalArgs ft ys d with
+          | ok ws => exact absurd hp (ih hmem ws)
+          | err e => simp
+          | panic p => simp
+        | err e => simp
+        | panic p => simp
+      · simp only [evalArgs]
+        cases hp : evalArgs ft ys d with
+        | ok ws => exact absurd hp (ih hmem ws)
+        | err e => simp
+        | panic p => simp
+
+theorem fails_bind1 {α β} (r : Res α) (k : α → Res β) (hf : Fails r) :
+    Fails (match r with | .ok v => k v | .err e => .err e | .panic p => .panic p) := by
+  intro v
+  cases h : r with
+  | ok lv => exact absurd h (hf lv)
+  | err e => simp
+  | panic p => simp
+
+theorem fails_cmpL (ft : List FnEntry) (op : Cmp) (l r : Node N) (d : Val N) (hf : Fails (eval ft l d)) :
+    Fails (eval ft (.cmp op l r) d) := by
+  intro v; simp only [eval]
+  cases h : eval ft l d with
+  | ok lv => exact absurd h (hf lv)
+  | err e => simp
+  | panic p => simp
+
+theorem fails_cmpR (ft : List FnEntry) (op : Cmp) (l r : Node N) (d : Val N) (hf : Fails (eval ft r d)) :
+    Fails (eval ft (.cmp op l r) d) := by
+  intro v; simp only [eval]
+  cases eval ft l d with
+  | ok lv =>
+    simp only []
+    cases h : eval ft r d with
+    | ok rv => exact absurd h (hf rv)
+    | err e => simp
+    | panic p => simp
+  | err e => simp
+  | panic p => simp
+
+/-- The left operand of every binary / postfix form. -/
+theorem fails_left (ft : List FnEntry) (l : Node N) (d : Val N) (hf : Fails (eval ft l d)) (r c : Node N) :
+    Fails (eval ft (.or l r) d) ∧ Fails (eval ft (.and l r) d) ∧ Fails (eval ft (.not l) d) ∧
+    Fails (eval ft (.pipe l r) d) ∧ Fails (eval ft (.sub l r) d) ∧ Fails (eval ft (.indexExpr l r) d) ∧
+    Fails (eval ft (.proj l r) d) ∧ Fails (eval ft (.valueProj l r) d) ∧ Fails (eval ft (.flatten l) d) ∧
+    Fails (eval ft (.filterProj l r c) d) := by
+  refine ⟨?_, ?_, ?_, ?_, ?_, ?_, ?_, ?_, ?_, ?_⟩ <;>
+  (intro v; simp only [eval]
+   cases h : eval ft l d with
+   | ok lv => exact absurd h (hf lv)
+   | err e => simp
+   | panic p => simp)
+
+theorem fails_projR (ft : List FnEntry) (l r : Node N) (d : Val N) (xs : List (Val N)) (x : Val N)
+    (hl : eval ft l d = .ok (.arr xs)) (hx : x ∈ xs) (hf : Fails (eval ft r x)) : Fails (eval ft (.proj l r) d) := by
+  intro v; simp only [eval, hl]
+  have := projectLoop_fails (eval ft r) xs x hx hf
+  cases h : projectLoop (eval ft r) xs with
+  | ok ys => exact absurd h (this ys)
+  | err e => simp
+  | panic p => simp
+
+theorem fails_vprojR (ft : List FnEntry) (l r : Node N) (d : Val N) (kvs : List (Bytes × Val N)) (kv : Bytes × Val N)
+    (hl : eval ft l d = .ok (.obj kvs)) (hx : kv ∈ kvs) (hf : Fails (eval ft r kv.2)) :
+    Fails (eval ft (.valueProj l r) d) := by
+  intro v; simp only [eval, hl]
+  have := projectLoop_fails (eval ft r) (kvs.map (·.2)) kv.2 (List.mem_map.mpr ⟨kv, hx, rfl⟩) hf
+  cases h : projectLoop (eval ft r) (kvs.map (·.2)) with
+  | ok ys => exact absurd h (this ys)
+  | err e => simp
+  | panic p => simp
+
+theorem fails_filterC (ft : List FnEntry) (l r c : Node N) (d : Val N) (xs : List (Val N)) (x : Val N)
+    (hl : eval ft l d = .ok (.arr xs)) (hx : x ∈ xs) (hf : Fails (eval ft c x)) :
+    Fails (eval ft (.filterProj l r c) d) := by
+  intro v; simp only [eval, hl]
+  have := filterLoop_fails_cond (eval ft c) (eval ft r) xs x hx hf
+  cases h : filterLoop (eval ft c) (eval ft r) xs with
+  | ok ys => exact absurd h (this ys)
+  | err e => simp
+  | panic p => simp
+
+theorem fails_filterR (ft : List FnEntry) (l r c : Node N) (d : Val N) (xs : List (Val N)) (x cv : Val N)
+    (hl : eval ft l d = .ok (.arr xs)) (hx : x ∈ xs) (hc : eval ft c x = .ok cv) (hcv : cv.isFalse = false)
+    (hf : Fails (eval ft r x)) : Fails (eval ft (.filterProj l r c) d) := by
+  intro v; simp only [eval, hl]
+  have := filterLoop_fails_rhs (eval ft c) (eval ft r) xs x cv hx hc hcv hf
+  cases h : filterLoop (eval ft c) (eval ft r) xs with
+  | ok ys => exact absurd h (this ys)
+  | err e => simp
+  | panic p => simp
+
+theorem fails_listM (ft : List FnEntry) (xs : List (Node N)) (d : Val N) (x : Node N) (hd : d ≠ .null) (hx : x ∈ xs)
+    (hf : Fails (eval ft x d)) : Fails (eval ft (.msList xs) d) := by
+  intro v
+  have := evalList_fails ft xs d x hx hf
+  cases d with
+  | null => exact absurd rfl hd
+  | _ =>
+    simp only [eval]
+    cases h : evalList ft xs _ with
+    | ok ys => exact absurd h (this ys)
+    | err e => simp
+    | panic p => simp
+
+theorem fails_hashM (ft : List FnEntry) (kvs : List (Bytes × Node N)) (d : Val N) (kv : Bytes × Node N) (hd : d ≠ .null)
+    (hx : kv ∈ kvs) (hf : Fails (eval ft kv.2 d)) : Fails (eval ft (.msHash kvs) d) := by
+  intro v
+  have := evalKVs_fails ft kvs d kv hx hf
+  cases d with
+  | null => exact absurd rfl hd
+  | _ =>
+    simp only [eval]
+    cases h : evalKVs ft kvs _ with
+    | ok ys => exact absurd h (this ys)
+    | err e => simp
+    | panic p => simp
+
+theorem fails_arg (ft : List FnEntry) (name : Bytes) (args : List (Bool × Node N)) (d : Val N) (x : Node N)
+    (hx : (false, x) ∈ args) (hf : Fails (eval ft x d)) : Fails (eval ft (.call name args) d) := by
+  intro v
+  have := evalArgs_fails ft args d x hx hf
+  simp only [eval]
+  cases h : evalArgs ft args d with
+  | ok ys => exact absurd h (this ys)
+  | err e => simp
+  | panic p => simp
+
+/-- Main theorem: a sub-expression that the specification requires to be
+    evaluated and that does not produce a value makes the whole Search fail —
+    the error is never turned into null nor dropped from a collection. -/
+theorem C11_errors_propagate (ft : List FnEntry) (root sub : Node N) (d d' : Val N)
+    (hev : Evaluated ft root d sub d') (hf : Fails (eval ft sub d')) : Fails (eval ft root d) := by
+  induction hev with
+  | here n d => exact hf
+  | cmpL _ ih => exact fails_cmpL ft _ _ _ _ (ih hf)
+  | cmpR _ ih => exact fails_cmpR ft _ _ _ _ (ih hf)
+  | orL _ ih => exact (fails_left ft _ _ (ih hf) _ .identity).1
+  | orR hl hm _ ih => intro v; simp only [eval, hl, hm, if_true]; exact ih hf v
+  | andL _ ih => exact (fails_left ft _ _ (ih hf) _ .identity).2.1
+  | andR hl hm _ ih => intro v; simp only [eval, hl, hm, Bool.false_eq_true, if_false]; exact ih hf v
+  | not _ ih => exact (fails_left ft _ _ (ih hf) .identity .identity).2.2.1
+  | pipeL _ ih => exact (fails_left ft _ _ (ih hf) _ .identity).2.2.2.1
+  | pipeR hl _ ih => intro v; simp only [eval, hl]; exact ih hf v
+  | subL _ ih => exact (fails_left ft _ _ (ih hf) _ .identity).2.2.2.2.1
+  | subR hl _ ih => intro v; simp only [eval, hl]; exact ih hf v
+  | idxL _ ih => exact (fails_left ft _ _ (ih hf) _ .identity).2.2.2.2.2.1
+  | idxR hl _ ih => intro v; simp only [eval, hl]; exact ih hf v
+  | projL _ ih => exact (fails_left ft _ _ (ih hf) _ .identity).2.2.2.2.2.2.1
+  | projR hl hx _ ih => exact fails_projR ft _ _ _ _ _ hl hx (ih hf)
+  | vprojL _ ih => exact (fails_left ft _ _ (ih hf) _ .identity).2.2.2.2.2.2.2.1
+  | vprojR hl hx _ ih => exact fails_vprojR ft _ _ _ _ _ hl hx (ih hf)
+  | flatten _ ih => exact (fails_left ft _ _ (ih hf) .identity .identity).2.2.2.2.2.2.2.2.1
+  | filterL _ ih => exact (fails_left ft _ _ (ih hf) _ _).2.2.2.2.2.2.2.2.2
+  | filterC hl hx _ ih => exact fails_filterC ft _ _ _ _ _ _ hl hx (ih hf)
+  | filterR hl hx hc hcv _ ih => exact fails_filterR ft _ _ _ _ _ _ _ hl hx hc hcv (ih hf)
+  | listM hd hx _ ih => exact fails_listM ft _ _ _ hd hx (ih hf)
+  | hashM hd hx _ ih => exact fails_hashM ft _ _ _ hd hx (ih hf)
+  | arg hx _ ih => exact fails_arg ft _ _ _ _ hx (ih hf)
+
+/-- With C05 (no panics) "fails" means "returns an error". -/
+theorem C11_fails_is_error_when_no_panic {α} (r : Res α) (hf : Fails r) (hp : r.isPanic = false) : ∃ e, r = .err e := by
+  cases r with
+  | ok v => exact absurd rfl (hf v)
+  | err e => exact ⟨e, rfl⟩
+  | panic p => simp [Res.isPanic] at hp
+
+/-- By-expression functions: a key/body expression that fails on some element
+    makes `map` fail (the other by-expression functions: see C10). -/
+theorem C11_map_body_error_propagates (f : Val N → Res (Val N)) (xs : List (Val N)) (x : Val N) (hx : x ∈ xs)
+    (hf : Fails (f x)) : Fails (Fn.mapLoop f xs) := by
+  induction xs with
+  | nil => cases hx
+  | cons y ys ih =>
+    intro zs
+    simp only [Fn.mapLoop]
+    rcases List.mem_cons.mp hx with rfl | hmem
+    · cases hfx : f x with
+      | ok v => exact absurd hfx (hf v)
+      | err e => simp
+      | panic p => simp
+    · cases f y with
+      | ok v =>
+        simp only []
+        cases hp : Fn.mapLoop f ys with
+        | ok ws => exact absurd hp (ih hmem ws)
+        | err e => simp
+        | panic p => simp
+      | err e => simp
+      | panic p => simp
+
+/-! Non-vacuity: `abs("a")[]`, the swallowed-error shape, is covered. -/
+example (ft : List FnEntry) (d : Val Int) :
+    Evaluated ft (.proj (.flatten (.call [0x61] [(false, .literal (.str [0x61]))])) .identity) d
+      (.call [0x61] [(false, .literal (.str [0x61]))]) d :=
+  .projL (.flatten (.here _ _))
 
 end Jmes.Props
